@@ -159,6 +159,24 @@ def base_files(rng, wd, impl, tier, small_only=False, variant="asan"):
     return out
 
 
+def dup_files(rng, wd, variant="asan"):
+    """files that hold the same chunk three times (A B A C A): zstd without and with a dictionary from the
+    zck tool (identical stored bytes and digests), and uncompressed from the reference encoder"""
+    a, bb, cc = text(rng, rng.randrange(120, 200)), rng.rbytes(rng.randrange(40, 80)), text(rng, rng.randrange(80, 140))
+    parts = [a, bb, a, cc, a]
+    out = []
+    rawd = rng.rbytes(100) + text(rng, 150)
+    for kind, d in (("zstd-dup", None), ("zstd-dup+rawdict", rawd)):
+        f, data = mk_zstd(wd, parts, dict_bytes=d, variant=variant)
+        b = Base(kind, f, data, [d or b""] + [SEP + p for p in parts])
+        if b.h.chunks[1][:1] == b.h.chunks[3][:1] == b.h.chunks[5][:1]:
+            out.append(b)
+    ps = [SEP + p for p in parts]
+    f, _ = zckfmt.build_file(ps, ht=1, cht=rng.choice([1, 3]))
+    out.append(Base("none-dup", f, b"".join(ps), [b""] + ps))
+    return out
+
+
 def patterns(rng, b, tier, k=None):
     """read buffer-size patterns: 1, c-1, c, c+1 (c = declared size of a chunk), 32 KiB, mixtures"""
     sizes = [c[3] for c in b.h.chunks if c[3] > 0] or [7]
@@ -439,8 +457,11 @@ def request_ops(b, k, variant):
     n = len(b.h.chunks)
     ul = b.h.chunks[k][3]
     k2 = 1 + (k % (n - 1)) if n > 1 else 0
+    # another entry with the same digest and sizes (a duplicate chunk), requested first
+    twins = [j for j in range(1, n) if j != k and b.h.chunks[j] == b.h.chunks[k]]
+    j = twins[variant % len(twins)] if twins else k2
     return ["g%d" % k, "P%d:%d" % (k, ul + 5), "g%d,g%d" % (k, k2), "c%d,g%d" % (k, k), "G%d:%d,g%d" % (k, max(1, ul - 3), k),
-            "g0,g%d,g%d" % (k, k), "g%d,P%d:%d" % (k2, k, ul + 1)][variant % 7]
+            "g0,g%d,g%d" % (k, k), "g%d,P%d:%d" % (k2, k, ul + 1), "g%d,g%d,g%d" % (j, k, j)][variant % 8]
 
 
 def build_request_cases(rng, tier, bases):
@@ -451,7 +472,7 @@ def build_request_cases(rng, tier, bases):
             continue
         n = len(b.h.chunks)
         for k in range(n):
-            for v in range(7):
+            for v in range(8):
                 items.append(("req-valid:%s" % b.kind, b.f, False, b, "F %s %s" % (b.f.hex(), request_ops(b, k, v))))
         ms = mutants(rng, b, tier)
         for mi, (tag, fb, resealed) in enumerate(ms):
@@ -461,6 +482,13 @@ def build_request_cases(rng, tier, bases):
                 continue
             k = 1 + mi % (n - 1)
             items.append(("req:%s:%s" % (b.kind, tag), fb, resealed, b, "F %s %s" % (fb.hex(), request_ops(b, k, mi // max(1, n - 1)))))
+            if tag.startswith("flip") and mi % 3 == 0 and len(b.f) < 3000:
+                # the damaged file paired with its pristine copy first (zck_find_matching_chunks marks chunks valid
+                # from the index alone): requests and reads afterwards must behave as without the pairing
+                bit = int(tag.split("@")[1])
+                kb = max(j for j in range(n) if b.starts[j] <= bit // 8)
+                items.append(("req:%s:%s:paired" % (b.kind, tag), fb, resealed, b, "F %s M%s,g%d,g%d" % (fb.hex(), b.f.hex(), kb, k)))
+                items.append(("req:%s:%s:paired" % (b.kind, tag), fb, resealed, b, "F %s M%s,R32768,q" % (fb.hex(), b.f.hex())))
     return items
 
 
@@ -544,7 +572,18 @@ def run(res, tier, only_case=None):
         rrng = vlib.Rng(vlib.seed() + 77)
         rwd = os.path.join(wd, "req")
         os.makedirs(rwd, exist_ok=True)
-        req_items = build_request_cases(rrng, tier, base_files(rrng, rwd, impl, tier, small_only=True))
+        rbases = base_files(rrng, rwd, impl, tier, small_only=True) + dup_files(rrng, rwd)
+        req_items = build_request_cases(rrng, tier, rbases)
+        # the files with duplicate chunks also streamed, valid and mutated
+        for b in rbases[-3:]:
+            for p_ in patterns(rrng, b, tier):
+                items.append(("valid:%s" % b.kind, b.f, False, b.content, "F %s %s,q" % (b.f.hex(), p_)))
+            ms = mutants(rrng, b, "quick")
+            for mi, (tag, fb, resealed) in enumerate(ms):
+                if tag.startswith("trunc") and mi % 4:
+                    continue
+                pp = patterns(rrng, b, tier, k=mi)
+                items.append(("%s:%s" % (b.kind, tag), fb, resealed, b.content, "F %s %s,q" % (fb.hex(), pp[mi % len(pp)])))
     lines = [it[4] for it in items] + [it[4] for it in req_items]
     io, mo, ierrs = run_both(lines, wd, impl, model)
     errmap = dict(ierrs)
